@@ -106,7 +106,8 @@ def c_eq_foreign(h):
 @contract("PolyhedralTerm.__hash__", ["C19"], [PT + "__hash__", PT + "__str__"], "S", bound=BOUND, assumes=["A1", "A9-repr"])
 def c_hash(h):
     s = S(h)
-    a, b = s.term("a", V3), s.term("b", V3)
+    # equal terms may have had their coefficient dictionaries populated in different orders
+    a, b = s.term("a", V3), s.term("b", V3, reverse=h.ctx.choose(2, "b_reversed") == 0)
     oa = h.call(h.method(a, "__hash__"), [])
     ob = h.call(h.method(b, "__hash__"), [])
     if _ret(h, oa) and _ret(h, ob):
